@@ -599,16 +599,16 @@ Proof.
   destruct (made_facts zk EKZ p HWF HC m Hm) as (_ & _ & _ & _ & _ & Hex & Hun). fold w in Hex, Hun.
   destruct (WF_parts p HWF) as [Hl _]. fold b in Hl.
   set (r := (if w then 0 else 7)%Z).
-  assert (Hr : (r = 0 \/ r = 7)%Z) by (unfold r; destruct w; auto).
+  assert (Hr : (r = 0 \/ r = 7)%Z) by (unfold r, w; destruct (whiteMove p); [left | right]; reflexivity).
   assert (Hob : forall f, (0 <= f <= 7)%Z -> on_board f r = true)
     by (intros f Hf; unfold on_board; rewrite !andb_true_iff, !Z.leb_le; lia).
   unfold castle_moves_pseudo in Hin. cbn [abs sp_board sp_white] in Hin. fold w b in Hin. cbv beta zeta in Hin. fold r in Hin.
   destruct (is_piece w King (at_ b 4 r) && negb (attacked_by b (negb w) 4 r)) eqn:E0; [|destruct Hin].
   apply andb_true_iff in E0. destruct E0 as [EK _]. rewrite is_piece_eqb in EK. apply N.eqb_eq in EK.
-  assert (HcK : has_color (negb w) (mk_piece w King) = false) by (destruct w; reflexivity).
-  assert (HcR : has_color (negb w) (mk_piece w Rook) = false) by (destruct w; reflexivity).
-  assert (HnK : (mk_piece w King =? EMPTY) = false) by (destruct w; reflexivity).
-  assert (HnR : (mk_piece w Rook =? EMPTY) = false) by (destruct w; reflexivity).
+  assert (HcK : has_color (negb w) (mk_piece w King) = false) by (unfold w; destruct (whiteMove p); reflexivity).
+  assert (HcR : has_color (negb w) (mk_piece w Rook) = false) by (unfold w; destruct (whiteMove p); reflexivity).
+  assert (HnK : (mk_piece w King =? EMPTY) = false) by (unfold w; destruct (whiteMove p); reflexivity).
+  assert (HnR : (mk_piece w Rook =? EMPTY) = false) by (unfold w; destruct (whiteMove p); reflexivity).
   assert (H4 : sq_of 4 r < 64) by (apply sq_of_coords, Hob; lia).
   assert (Hget : forall f, (0 <= f <= 7)%Z -> at_ b f r = nth (N.to_nat (sq_of f r)) b EMPTY).
   { intros f Hf. unfold at_. rewrite (Hob f Hf). destruct (sq_of_coords f r (Hob f Hf)) as [_ [_ [_ ->]]]. reflexivity. }
@@ -624,8 +624,8 @@ Proof.
     rewrite <- (Hget 4%Z) by lia. rewrite EK.
     replace (nth (N.to_nat (sq_of (if kside then 6 else 2)%Z r)) b EMPTY) with EMPTY
       by (rewrite <- Hget by (destruct kside; lia); symmetry; exact Hte).
-    replace (is_piece w Pawn (mk_piece w King)) with false by (destruct w; reflexivity).
-    replace (is_piece w King (mk_piece w King)) with true by (destruct w; reflexivity).
+    replace (is_piece w Pawn (mk_piece w King)) with false by (unfold w; destruct (whiteMove p); reflexivity).
+    replace (is_piece w King (mk_piece w King)) with true by (unfold w; destruct (whiteMove p); reflexivity).
     assert (Hz4 : zf (sq_of 4 r) = 4%Z /\ zr (sq_of 4 r) = r) by (split; apply sq_of_coords, Hob; lia).
     assert (Hzt : zf (sq_of (if kside then 6 else 2)%Z r) = (if kside then 6 else 2)%Z)
       by (apply sq_of_coords, Hob; destruct kside; lia).
